@@ -618,19 +618,19 @@ Proof.
   - apply Rmult_lt_reg_r with (IZR n); [exact Hn'|]. unfold Rdiv. rewrite Rmult_assoc, Rinv_l by lra. lra.
 Qed.
 
-(* for a finite a >= 0:  float(int(a) % 360) + a % 1.0  is computed without any rounding
-   and equals a - 360 floor(a/360) *)
-Theorem reduce_kernel a : fin a -> 0 <= RV a ->
-  let s := (b64_of_Z (b64_trunc a mod 360) + b64_fmod a 1)%float in
+(* for a finite a >= 0:  float(int(a) % 360) + fr, where fr is a % 1.0 (any float with that
+   value, e.g. +0.0 instead of -0.0), is computed without any rounding and equals
+   a - 360 floor(a/360) *)
+Theorem reduce_kernel_gen a fr : fin a -> 0 <= RV a -> fin fr -> RV fr = RV a - IZR (Ztrunc (RV a)) ->
+  let s := (b64_of_Z (b64_trunc a mod 360) + fr)%float in
   RV s = RV a - 360 * IZR (Zfloor (RV a / 360)) /\ fin s /\ 0 <= RV s < 360.
 Proof.
-  intros Fa Ha s.
+  intros Fa Ha Fm Hm s.
   assert (b64_trunc a = Zfloor (RV a)) as Ht.
   { rewrite b64_trunc_correct by exact Fa. unfold Ztrunc. rewrite Rlt_bool_false by exact Ha. reflexivity. }
   set (t := Zfloor (RV a)) in *. set (d := (t mod 360)%Z).
   pose proof (Z.mod_pos_bound t 360 ltac:(lia)) as Hd. fold d in Hd.
   destruct (b64_of_Z_exact d ltac:(lia)) as [Hdv Fd].
-  destruct (b64_fmod_1_value a Fa) as [Hm Fm].
   assert (Ztrunc (RV a) = t) as Htr by (unfold Ztrunc; rewrite Rlt_bool_false by exact Ha; reflexivity).
   rewrite Htr in Hm.
   assert (Zfloor (RV a / 360) = (t / 360)%Z) as Hq by (apply (floor_div_nested (RV a) 360); lia).
@@ -647,11 +647,19 @@ Proof.
   assert (0 <= v < 360) as Hv.
   { unfold v. pose proof (Zfloor_lb (RV a / 360)). pose proof (Zfloor_ub (RV a / 360)).
     assert (RV a = 360 * (RV a / 360)) as E by field. split; lra. }
-  assert (RN (RV (b64_of_Z d) + RV (b64_fmod a 1)) = v) as E.
+  assert (RN (RV (b64_of_Z d) + RV fr) = v) as E.
   { rewrite Hdv, Hm, Hsum. apply round_generic; [apply valid_rnd_N | exact Fv]. }
-  destruct (add_R (b64_of_Z d) (b64_fmod a 1) Fd Fm) as [A B].
+  destruct (add_R (b64_of_Z d) fr Fd Fm) as [A B].
   { rewrite E. apply small_lt_emax. rewrite Rabs_pos_eq; lra. }
   unfold s. rewrite Ht. fold d. rewrite A, E. split; [reflexivity|]. split; [exact B | exact Hv].
+Qed.
+
+Theorem reduce_kernel a : fin a -> 0 <= RV a ->
+  let s := (b64_of_Z (b64_trunc a mod 360) + b64_fmod a 1)%float in
+  RV s = RV a - 360 * IZR (Zfloor (RV a / 360)) /\ fin s /\ 0 <= RV s < 360.
+Proof.
+  intros Fa Ha. destruct (b64_fmod_1_value a Fa) as [Hm Fm].
+  apply reduce_kernel_gen; assumption.
 Qed.
 
 (* multiplying by +-1.0 is exact *)
